@@ -18,12 +18,12 @@ RULE = ('random references (60-400 bp, optional N bases, C/G placed in the first
         '1..6 fragments on either strand under both TAPS strand conventions, paired, dove-tailed, single-end, with sequencing errors; every '
         'entry of methylation_call_dict and every tag is compared. Non-trivial = molecule with at least one methylated and one unmethylated '
         'call; distinct = distinct (case seed).'
-        ' Plus one TAPS caller serving several references, references without any convertible base, reads with deletions, molecules of 255-300 stacked fragments.')
+        ' Plus one TAPS caller serving several references, references without any convertible base, reads with deletions, molecules of 255-300 stacked fragments, soft-masked (lower-case) reference stretches, an earlier molecule called with its own consensus options.')
 ASSUMPTIONS = ['the molecule consensus is the C13 vote restricted to positions whose reference base is the expected convertible base',
                'context letters: CG->z, C[ACT]G->x, C[ACT][ACT]->h, anything truncated by the contig end or containing a non-ACGT base -> "."']
 MIN_NONTRIVIAL = {'quick': 200, 'thorough': 25000}
 REQUIRED_MONITORS = ['obs:call_dict_entries', 'obs:reads_with_XM', 'ctx:z', 'ctx:x', 'ctx:h', 'ctx:upper', 'ctx:dot', 'edge:contig_end_calls',
-                     'strand:reverse', 'convention:F', 'convention:R', 'history:caller_reused_on_other_reference', 'obs:reads_of_molecules_without_calls', 'lib:deep_molecules', 'lib:reads_with_deletion']
+                     'strand:reverse', 'convention:F', 'convention:R', 'history:caller_reused_on_other_reference', 'obs:reads_of_molecules_without_calls', 'lib:deep_molecules', 'lib:reads_with_deletion', 'reference:soft_masked', 'history:earlier_molecule_with_own_consensus_options']
 SHARD_TIMEOUT = {'quick': 900, 'thorough': 5400}
 
 
@@ -157,16 +157,38 @@ def one_reference(case, acc, r, taps, rnd):
         frags.append({'kind': kind, 'recs': recs})
     with Scratch('c14') as dd:
         fa = os.path.join(dd, 'ref.fa')
+        fa_seq = ref
+        if case['i'] % 3 == 1:
+            # a soft-masked reference: repeats are written in lower case (UCSC / Ensembl style); the bases are the same bases
+            fa_seq = list(ref)
+            for _ in range(r.randint(1, 4)):
+                a0 = r.randrange(L)
+                for p in range(a0, min(L, a0 + r.choice([1, 2, 3, 10, 40, L]))):
+                    fa_seq[p] = fa_seq[p].lower()
+            fa_seq = ''.join(fa_seq)
+            acc.count('reference:soft_masked')
         with open(fa, 'w') as f:
-            f.write('>chr1\n' + ref + '\n')
+            f.write('>chr1\n' + fa_seq + '\n')
         pysam.faidx(fa)
         header = make_header([('chr1', L)])
         with pysam.FastaFile(fa) as reference:
+            if case['i'] % 4 == 2 and frags:
+                # history: an earlier molecule of this process was called with its own consensus options (quality threshold, bases masked near
+                # the mate ends); the options belong to that molecule only
+                other = TAPSMolecule(taps=taps, taps_strand=conv, reference=reference,
+                                     methylation_consensus_kwargs={'min_phred_score': r.choice([20, 30, 38]), 'dove_R2_distance': r.choice([4, 12]),
+                                                                   'dove_R1_distance': r.choice([0, 8]), 'skip_first_n_cycles_R1': r.choice([0, 5])})
+                other._add_fragment(Fragment([make_seg(header, rec) if rec is not None else None for rec in frags[0]['recs']], umi_hamming_distance=0))
+                try:
+                    other.__finalise__()
+                except Exception:
+                    pass
+                acc.count('history:earlier_molecule_with_own_consensus_options')
             m = TAPSMolecule(taps=taps, taps_strand=conv, reference=reference)
             for fr in frags:
                 reads = [make_seg(header, rec) if rec is not None else None for rec in fr['recs']]
                 m._add_fragment(Fragment(reads, umi_hamming_distance=0))
-            wit = {'reference': ref, 'round_with_the_same_caller': rnd, 'reverse': reverse, 'convention': conv, 'expected_base': expected_base, 'methylated_positions': sorted(meth)[:40],
+            wit = {'reference': ref, 'reference_as_written': fa_seq, 'round_with_the_same_caller': rnd, 'reverse': reverse, 'convention': conv, 'expected_base': expected_base, 'methylated_positions': sorted(meth)[:40],
                    'fragments': [[(x['flag'], x['pos'], x['seq']) if x else None for x in f['recs']] for f in frags]}
             try:
                 m.__finalise__()
